@@ -15,6 +15,11 @@ pub enum Query {
     TraceText(String),
     TraceTyped(String),
     Signature(String),
+    /// queries on the shared `ProguardMapping` handle (C20 workload only)
+    MapUuid,
+    MapSummary,
+    MapHasLineInfo,
+    MapIsValid,
 }
 
 impl Query {
@@ -40,6 +45,10 @@ impl Query {
             Query::TraceText(t) => format!("remap_stacktrace({:?})", t),
             Query::TraceTyped(t) => format!("remap_stacktrace_typed(parse({:?}))", t),
             Query::Signature(s) => format!("deobfuscate_signature({:?})", s),
+            Query::MapUuid => "mapping.uuid()".into(),
+            Query::MapSummary => "mapping.summary()".into(),
+            Query::MapHasLineInfo => "mapping.has_line_info()".into(),
+            Query::MapIsValid => "mapping.is_valid()".into(),
         }
     }
 
@@ -71,6 +80,7 @@ impl Query {
                 }
             }
             Query::TraceText(t) | Query::TraceTyped(t) | Query::Signature(t) => add(t),
+            Query::MapUuid | Query::MapSummary | Query::MapHasLineInfo | Query::MapIsValid => {}
         }
     }
 
@@ -89,6 +99,10 @@ impl Query {
             Query::TraceText(t) => json!({"k":"trace_text","text":t}),
             Query::TraceTyped(t) => json!({"k":"trace_typed","text":t}),
             Query::Signature(s) => json!({"k":"signature","sig":s}),
+            Query::MapUuid => json!({"k":"map_uuid"}),
+            Query::MapSummary => json!({"k":"map_summary"}),
+            Query::MapHasLineInfo => json!({"k":"map_has_line_info"}),
+            Query::MapIsValid => json!({"k":"map_is_valid"}),
         }
     }
 
@@ -108,6 +122,10 @@ impl Query {
             "trace_text" => Query::TraceText(s("text")?),
             "trace_typed" => Query::TraceTyped(s("text")?),
             "signature" => Query::Signature(s("sig")?),
+            "map_uuid" => Query::MapUuid,
+            "map_summary" => Query::MapSummary,
+            "map_has_line_info" => Query::MapHasLineInfo,
+            "map_is_valid" => Query::MapIsValid,
             _ => return None,
         })
     }
